@@ -41,12 +41,18 @@ pub(crate) struct EnumValueEntry {
 }
 
 impl EnumValueEntry {
-  /// Extracts a cache key from this enum entry's value, if it is a string.
+  /// Extracts a cache key from this enum entry's value.
   ///
-  /// Returns `Some(value)` for string enum values, or `None` for non-string values
-  /// (integers, booleans, etc.) which cannot be used as cache keys.
+  /// Returns the string itself for string values and the JSON text for numbers
+  /// and booleans, so that enums over different non-string values do not share
+  /// a key. Returns `None` for `null`, which is expressed as `Option` at the
+  /// use site rather than as a variant.
   pub(crate) fn cache_key(&self) -> Option<String> {
-    self.value.as_str().map(String::from)
+    match &self.value {
+      Value::String(s) => Some(s.clone()),
+      Value::Null => None,
+      other => Some(other.to_string()),
+    }
   }
 }
 
